@@ -111,6 +111,13 @@ Definition step (st : slots) (o : zop) : slots * list Z :=
           match get_slot st slot with
           | Some f => (st, [1])
           | None => (st, EMPTY) end
+  | 19 => (* round-trip check: the crate serializes, deserializes, compares the copy with the original (==) and
+             reports [copy == original; image length].  The model answers by the round-trip theorem (Props/C11_bloom.v)
+             and the size formula (Props/C18_bloom.v) without building the byte list, so filters of 2^20 bits cost
+             it nothing. *)
+          match get_slot st slot with
+          | Some f => (st, [1; if bf_is_empty f then 24 else 32 + 8 * Z.of_nat (length (bf_words f))])
+          | None => (st, EMPTY) end
   | _ => (st, PANIC)
   end.
 
@@ -261,6 +268,9 @@ Fixpoint prop_from (chk : sp -> list Z -> bool) (strict : bool) (st : ospec) (op
               else if strict && negb (list_eqb Z.eqb ob ALLOC)
                    then match image_spec (skipn 1 a) with Some _ => false | None => prop_from chk strict (op_ st slot None) r obr end
               else prop_from chk strict (op_ st slot None) r obr
+      | 19 => match og st slot with
+              | Some s => list_eqb Z.eqb ob [1; if card (sp_set s) =? 0 then 24 else 32 + sp_cap s / 8] && prop_from chk strict st r obr
+              | None => prop_from chk strict st r obr end
       | 18 => match og st slot with
               | Some s => list_eqb Z.eqb ob [1] && prop_from chk strict st r obr      (* no false negatives *)
               | None => prop_from chk strict st r obr end
